@@ -760,7 +760,8 @@ def case_v1_actuator(mon, rng, c):
 
 # ================================================================================================ v2
 def _opt(x):
-    return None if x is None else float(x)
+    # an empty field of the data file arrives as NaN: no figure, like None
+    return None if x is None or x != x else float(x)
 
 
 def v2_state(row):
@@ -1148,10 +1149,13 @@ def _v2_world(rng, n, custom_cfg):
     if vk < 0.15:
         # markets without a virtual inventory (none configured), or with only one side of it: the real pool alone decides
         which = rng.choice(["both", "both", "long", "short"])
+        # None (set by hand) or NaN (what an empty field of the csv file becomes)
+        absent = (lambda: pd.Series([None] * len(w.data.index), index=w.data.index, dtype=object)) if rng.random() < 0.5 else (
+            lambda: pd.Series([float("nan")] * len(w.data.index), index=w.data.index, dtype=float))
         if which in ("both", "long"):
-            w.data["virtualSwapInventoryLong"] = pd.Series([None] * len(w.data.index), index=w.data.index, dtype=object)
+            w.data["virtualSwapInventoryLong"] = absent()
         if which in ("both", "short"):
-            w.data["virtualSwapInventoryShort"] = pd.Series([None] * len(w.data.index), index=w.data.index, dtype=object)
+            w.data["virtualSwapInventoryShort"] = absent()
     m = w.market()
     cfgcls = "default"
     if custom_cfg:
